@@ -771,6 +771,7 @@ pub fn execute(case: &Case, ctx: &mut Ctx) {
                         hash_seed: case.hash_seed,
                         init_offset: None,
                         init_speed_unset: false,
+                        nested_drift: false,
                     };
                     let mut c2 = Ctx::default();
                     trn::execute(&sub, &mut c2);
